@@ -63,6 +63,12 @@ var c20JSONBodies = []string{"", "{", "[]", "null", "{}", `{"Statement":null}`, 
 
 var c20CopySources = []string{"", "/", "bk-main", "bk-main/", "/bk-main/obj1", "bk-main/obj1?versionId=", "bk-main/obj1?versionId=zzz", "?versionId=x", "//", "%", "%zz", "bk-main/../bk-other/secret", "nosuchbucket/k", "bk-main/nosuchkey", strings.Repeat("a/", 600), "bk-main/obj1?x=y", "bk-main%2Fobj1"}
 
+// c20ScopeParts replace the region of the credential scope (quoted back in SignatureDoesNotMatch-style errors).
+var c20ScopeParts = []string{"us\x01east", "us\xffeast", "us<east", "us&east;", "us\"east", "", strings.Repeat("r", 3000), "us\x7feast", "us\u2028east", "%00", "us east"}
+
+// w0DirObj is a directory object of the fixture (see c20World).
+const w0DirObj = "dirobj/"
+
 // c20Targets are request targets that are not an absolute path (the request line carries them verbatim).
 var c20Targets = []string{"foo", "*", "?x", "%zz", "bk-main/obj1", "bk-main", "http://gw.local:7070/bk-main/obj1", "//", "/%", ".", "..", "%2Fbk-main%2Fobj1", "\\bk-main", "#"}
 
@@ -187,7 +193,7 @@ func c20Cases(thorough bool) []c20Case {
 	creds := []string{"valid", "wrong-secret", "anonymous", "unknown-access-key"}
 	add := func(ep, field, class, val string) {
 		for _, c := range creds {
-			if c != "valid" && !thorough && field != "body" && field != "body-only" && field != "no-content-length" && field != "target" && field != "chunk-framing" && field != "unsigned-framing" {
+			if c != "valid" && !thorough && field != "body" && field != "body-only" && field != "no-content-length" && field != "target" && field != "credential-region" && field != "presigned-credential-region" && field != "chunk-framing" && field != "unsigned-framing" {
 				// quick tier: invalid credentials only for bodies and framing (the parsers reachable before authentication)
 				continue
 			}
@@ -244,6 +250,13 @@ func c20Cases(thorough bool) []c20Case {
 				add(ep.ID, "target", "request-target", tgt)
 			}
 		}
+		if ep.ID == "GetObject" || ep.ID == "PutObject" || ep.ID == "ListBuckets" || ep.ID == "ListObjectsV2" {
+			// client-controlled text that error messages quote: the region (and other parts) of the credential scope
+			for _, v := range c20ScopeParts {
+				add(ep.ID, "credential-region", "credential-scope", v)
+				add(ep.ID, "presigned-credential-region", "credential-scope", v)
+			}
+		}
 		if ep.ID == "PutBucketPolicy" {
 			for _, b := range c20JSONBodies {
 				add(ep.ID, "body", "json", b)
@@ -252,6 +265,10 @@ func c20Cases(thorough bool) []c20Case {
 		if ep.Level == "object" {
 			for _, k := range []string{strings.Repeat("k", 1025), strings.Repeat("d/", 300) + "x", "a//b", "a/./b", "%00", ".sgwtmp/x", "a\x7fb", strings.Repeat("é", 200), "a b+c&d=e?f#g"} {
 				add(ep.ID, "key", "key", k)
+			}
+			// keys in a particular state: the current version is a delete marker; a directory object; a key below a file
+			for _, k := range []string{"todelete", "dir/", w0DirObj, "obj1/below-a-file"} {
+				add(ep.ID, "key", "key-state", k)
 			}
 		}
 		if ep.Level == "bucket" {
@@ -395,6 +412,27 @@ func (c c20Case) build(w *World) *gw.Req {
 			req.NoAutoCL = false
 		}
 		gw.Sign(req, cred, gw.SignOpts{NoSignHeaders: []string{"range", "content-length"}})
+	}
+	switch c.Field {
+	case "credential-region":
+		// the signed request names another region in its credential scope (the bytes go out as they are)
+		a := req.Get("Authorization")
+		if i := strings.Index(a, "/"+gw.Region+"/s3/aws4_request"); i >= 0 {
+			req.Set("Authorization", a[:i]+"/"+strings.Map(func(r rune) rune {
+				if r == '\r' || r == '\n' || r == 0 {
+					return -1
+				}
+				return r
+			}, c.Value)+a[i+len("/"+gw.Region):])
+		}
+	case "presigned-credential-region":
+		req.Del("Authorization")
+		day := time.Now().UTC().Format("20060102")
+		q := "X-Amz-Algorithm=AWS4-HMAC-SHA256&X-Amz-Credential=" + gw.URIEncode(cred.Access+"/"+day+"/"+c.Value+"/s3/aws4_request", true) + "&X-Amz-Date=" + time.Now().UTC().Format("20060102T150405Z") + "&X-Amz-Expires=600&X-Amz-SignedHeaders=host&X-Amz-Signature=" + strings.Repeat("ab", 32)
+		if req.Query != "" {
+			q = req.Query + "&" + q
+		}
+		req.Query = q
 	}
 	if c.Cred == "anonymous" {
 		req.Del("Authorization")
@@ -653,5 +691,6 @@ func c20World() *World {
 	Must(w.F.Put(gw.Root, w.Bucket, w.Key2, []byte("second version")), "second version")
 	Must(w.F.Put(gw.Root, w.Bucket, "todelete", []byte("x")), "put todelete")
 	Must(w.F.Delete(gw.Root, w.Bucket, "todelete"), "delete marker")
+	Must(w.F.Put(gw.Root, w.Bucket, w0DirObj, nil), "directory object")
 	return w
 }
